@@ -248,6 +248,8 @@ class Run:
         pkg = self.world.spec["package"]
         short = full_name.rsplit(".", 1)[-1]
         for fs in self.world.spec["files"]:
+            if fs.get("dependency_only"):
+                continue          # a dependency package: its classes are the installed pb2 ones (symbol database below)
             if full_name.startswith(fs["package"] + "."):
                 rel = full_name[len(fs["package"]) + 1:].split(".")
                 obj = None
